@@ -295,7 +295,9 @@ def replay_ops(engine, lines, workdir, tag="rp"):
 
 def msg_class(msg):
     """Stable class of a PROP message: digits and hex blobs abstracted."""
-    m = re.sub(r"items=\S*", "items=..", msg)
+    m = re.sub(r"\[[^\]]*\]", "[..]", msg)
+    m = re.sub(r"(index|data)\.\d+@", r"\1.F@", m)
+    m = re.sub(r"items=\S*", "items=..", m)
     m = re.sub(r"[0-9a-f]{8,}", "H", m)
     m = re.sub(r"v=[0-9a-f]*", "v=H", m)
     m = re.sub(r"\d+", "N", m)
